@@ -275,9 +275,12 @@ def oracle_c03(ctx: Ctx, n):
                 env = {"extras": set(), "dependency_groups": set(), var: envv}
                 try:
                     exp = Marker(t).evaluate(env, context="lock_file")
+                except Exception:  # noqa: BLE001   (the reference declines: not a well-defined atom)
+                    continue
+                try:
                     got = parse(t).evaluate(env, context="lock_file")
                 except Exception as ex:  # noqa: BLE001
-                    continue
+                    got = repr(ex)
                 ctx.count("oracle-C03", 1, nontrivial_key=("setvar", var, op, len(envv)))
                 if exp != got:
                     ctx.finding(f"setvar|{t}|{sorted(envv)}", "set-valued membership differs from packaging", {"marker": t, "env": sorted(envv)}, exp, got)
@@ -375,8 +378,7 @@ def oracle_c15(ctx: Ctx, n):
     clear_caches()
     for desc, m, src in derived(ctx, n, salt=15):
         ctx.count("oracle-C15", 1, nontrivial_key=(shape(m), desc.count("&"), desc.count("|"), "exclude" in desc, "only" in desc))
-        p = mg.nf_problem(m)
-        if p:
+        for p in mg.nf_problems(m):      # every departure, so that a recorded one does not hide another in the same result
             ctx.finding(f"nf|{_site(p, m)}", f"result not in normal form: {p}", {"operation": desc}, "normal form", {"result": str(m), "dump": repr(mg.dump(m))[:400]})
     ctx.sample({"stream": "oracle-C15", "case": desc})
 
@@ -488,8 +490,11 @@ def oracle_c12(ctx: Ctx, n):
                         ctx.finding(f"{env_class(src, env)}only-id|{desc}", "only(all mentioned names) changes the meaning", {"marker": desc, "env": _envs(env)}, ev(m, env), {"result": str(r)})
                         break
                 except Exception as e:  # noqa: BLE001
+                    ctx.finding(f"only-eval-raise|{desc}|{keep}", f"evaluate raised {type(e).__name__} on m or on m.only(names)", {"marker": desc, "names": keep, "env": _envs(env)}, None, repr(e))
                     break
-        for v in vs + ["implementation_version"]:
+        # removed variables: every mentioned one, two that may not be mentioned, and `extra` whether mentioned or not (without_extras() on a
+        # marker without extras must be the identity in meaning)
+        for v in list(dict.fromkeys(vs + ["implementation_version", "platform_python_implementation", "extra"])):
             for meth, f in (("exclude", lambda: m.exclude(v)),) + ((("without_extras", lambda: m.without_extras()),) if v == "extra" else ()):
                 ok, r = safe(ctx, "oracle-C12", f)
                 if not ok:
@@ -500,7 +505,7 @@ def oracle_c12(ctx: Ctx, n):
                 if v not in vs:
                     for env in envs:
                         if ev(m, env) != ev(r, env):
-                            ctx.finding(f"{meth}-id|{desc}|{v}", f"{meth}() of an unmentioned variable changes the meaning", {"marker": desc, "name": v, "env": _envs(env)}, ev(m, env), str(r))
+                            ctx.finding(f"{env_class(src, env)}{meth}-id|{desc}|{v}", f"{meth}() of an unmentioned variable changes the meaning", {"marker": desc, "name": v, "env": _envs(env)}, ev(m, env), str(r))
                             break
     ctx.sample({"stream": "oracle-C12", "case": desc})
 
@@ -544,7 +549,8 @@ def oracle_c14_markers(ctx: Ctx, n=None):
             for env in envs:
                 try:
                     x, y = ev(l, env), ev(r, env)
-                except Exception:  # noqa: BLE001
+                except Exception as e:  # noqa: BLE001
+                    ctx.finding(f"m-law-eval-raise|{lname}|{ta}|{tb}|{tc}", f"evaluate raised {type(e).__name__} on a side of marker law {lname}", {"law": lname, "a": ta, "b": tb, "c": tc, "env": _envs(env)}, None, repr(e))
                     break
                 if x != y:
                     ctx.finding(f"{env_class([ta, tb, tc], env)}m-{lname}|{ta}|{tb}|{tc}", f"marker law {lname}: the two sides evaluate differently",
@@ -589,7 +595,7 @@ def oracle_c13_markers(ctx: Ctx, n):
                 envs = mg.env_grid([ta, tb], rng, limit=10)
                 for env in envs:
                     if ev(a, env) != ev(b, env):
-                        ctx.finding(f"m-congr-eval|{_atomclass(a)}|{ta}|{tb}", "x == y but they evaluate differently (equal objects are not interchangeable)",
+                        ctx.finding(f"{env_class([ta, tb], env)}m-congr-eval|{_atomclass(a)}|{ta}|{tb}", "x == y but they evaluate differently (equal objects are not interchangeable)",
                                     {"x": ta, "y": tb, "env": _envs(env)}, ev(a, env), ev(b, env))
                         break
                 c = rng.choice(others)
@@ -874,8 +880,9 @@ def _c10_class(probe, hist, warm=None, cold=None):
                 parts = re.split(r"\s+(or|and)\s+", m.group(0))
                 conn = parts[1]
                 return f" {conn} ".join(sorted(parts[0::2]))
-            pat = r'(\w+) (==|!=) "[^"]*"(?: (?:or|and) \1 \2 "[^"]*")+'
-            return re.sub(pat, sort_run, t)
+            # a grouped atom renders as  v == "x" or v == "y" ...  /  v != "x" and v != "y" ...: one connective per run
+            t = re.sub(r'(\w+) == "[^"]*"(?: or \1 == "[^"]*")+', sort_run, t)
+            return re.sub(r'(\w+) != "[^"]*"(?: and \1 != "[^"]*")+', sort_run, t)
         if norm(warm[0]) == norm(cold[0]):
             fam = "value-order-text-only"
     return f"{fam}|{probe[0]}|{probe[1]}|{probe[2]}"
